@@ -18,6 +18,7 @@ const icePath = "github.com/blugelabs/ice/v2"
 
 // World holds the loaded program, the contracts and the global SMT signature.
 type World struct {
+	DefaultFramed []string // externals without a contract, given the default frame (writes its slice arguments)
 	RunningProp string // the property a check run is for ("" in debugging runs over all obligations)
 	Fset  *token.FileSet
 	Prog  *ssa.Program
@@ -151,9 +152,57 @@ func LoadWorld(repo, preludeDir string) (*World, error) {
 			return nil, err
 		}
 	}
+	w.defaultExternalFrames()
 	w.initSignature()
 	w.computeModsets()
 	return w, nil
+}
+
+// defaultExternalFrames: a function outside the package that has no contract is modelled as
+// returning arbitrary results; it is additionally taken to write the elements of every slice it is
+// handed (sort.Strings, copy-like helpers): a caller that passes it memory it does not own then
+// loses what it knew about that memory instead of keeping it silently.
+func (w *World) defaultExternalFrames() {
+	for _, fn := range w.FnAll {
+		for _, b := range fn.Blocks {
+			for _, ins := range b.Instrs {
+				ci, ok := ins.(ssa.CallInstruction)
+				if !ok {
+					continue
+				}
+				c := ci.Common()
+				if c.IsInvoke() {
+					continue
+				}
+				callee, ok := c.Value.(*ssa.Function)
+				if !ok || callee.Pkg == w.Pkg || (callee.Parent() != nil && callee.Parent().Pkg == w.Pkg) {
+					continue
+				}
+				name := extName(callee)
+				if _, has := w.Spec.Contracts[name]; has {
+					continue
+				}
+				sig := callee.Signature
+				var mods []string
+				for i := 0; i < sig.Params().Len(); i++ {
+					pv := sig.Params().At(i)
+					if sig.Variadic() && i == sig.Params().Len()-1 {
+						continue // the argument array of a variadic call is the caller's temporary
+					}
+					if _, isSl := pv.Type().Underlying().(*types.Slice); isSl && pv.Name() != "" && pv.Name() != "_" {
+						mods = append(mods, pv.Name()+"[*]")
+					}
+				}
+				if len(mods) == 0 {
+					continue
+				}
+				w.Spec.Contracts[name] = &Contract{Func: name, Modifies: mods, HasMod: true, Trusted: true,
+					Line: "default frame of an unmodelled external", Loops: map[int]*LoopSpec{}, Opts: map[string]string{}}
+				w.DefaultFramed = append(w.DefaultFramed, name+" modifies "+strings.Join(mods, ", "))
+			}
+		}
+	}
+	sort.Strings(w.DefaultFramed)
 }
 
 // FnName is the contract key of a function: RelString relative to package ice.
